@@ -87,13 +87,20 @@ def norm_replace():
     src = ast.unparse(f)
     if "normalized[normalized_key] = value" not in src or "for key, value in config.items()" not in src:
         raise Unsupported("_normalize_config_keys: unexpected loop shape")
-    # both file parsers must normalise
-    for fn in ("parse_config_file", "parse_pyproject_toml"):
+    return defn("norm_from", "string", coq_string(a)) + defn("norm_to", "string", coq_string(b))
+
+
+def parsers_normalise():
+    """does each file parser hand its result through _normalize_config_keys on every path?"""
+    out = ""
+    for name, fn in (("file_parser_normalises", "parse_config_file"), ("pyproject_parser_normalises", "parse_pyproject_toml")):
         g = find_func(parse("src/core/config_parser.py"), fn)
         rets = [n for n in ast.walk(g) if isinstance(n, ast.Return) and n.value is not None]
-        if not rets or not all(isinstance(r.value, ast.Call) and ast.unparse(r.value.func) == "_normalize_config_keys" for r in rets):
-            raise Unsupported(f"{fn}: does not return _normalize_config_keys(...) on every path")
-    return defn("norm_from", "string", coq_string(a)) + defn("norm_to", "string", coq_string(b))
+        if not rets:
+            raise Unsupported(f"{fn}: no return")
+        ok = all(isinstance(r.value, ast.Call) and ast.unparse(r.value.func) == "_normalize_config_keys" and len(r.value.args) == 1 for r in rets)
+        out += defn(name, "bool", "true" if ok else "false")
+    return out
 
 
 # ------------------------------------------------------------------ discovery
@@ -298,6 +305,8 @@ def _module_consts(mod):
 
 
 def _dval(e, consts, depth=0):
+    if isinstance(e, ast.Call) and isinstance(e.func, ast.Attribute) and e.func.attr == "get" and len(e.args) == 2 and depth < 3:
+        return _dval(e.args[1], consts, depth + 1)  # x.get(k, y.get(k, DEFAULT)): the innermost fallback is the default
     if isinstance(e, ast.Name) and e.id in consts and depth < 3:
         return _dval(consts[e.id], consts, depth + 1)
     if isinstance(e, ast.Constant):
@@ -332,6 +341,10 @@ def _from_dict_info(rel, cls):
     opts, lang = [], []
     events = []
     for fn in fns:
+        # a language sub-section overrides an option only when it is consulted first: lang_config.get(k, <fallback>)
+        # appearing as the fallback of config.get(k, ...) is the opposite precedence and is not recorded
+        shadowed = {id(a) for n in ast.walk(fn) if isinstance(n, ast.Call) and isinstance(n.func, ast.Attribute) and n.func.attr == "get"
+                    and ast.unparse(n.func.value) in ("config", "config_dict", "base_config") for a in n.args[1:] for a in ast.walk(a)}
         for n in ast.walk(fn):
             if isinstance(n, ast.Call) and isinstance(n.func, ast.Attribute) and n.func.attr == "get" and n.args and _const_str(n.args[0]) is not None:
                 base = ast.unparse(n.func.value)
@@ -339,7 +352,7 @@ def _from_dict_info(rel, cls):
                 if base in ("config", "config_dict", "base_config"):
                     d = _dval(n.args[1], consts) if len(n.args) > 1 else "DOther"
                     events.append((fn.lineno, n.lineno, n.col_offset, k, d))
-                elif base == "lang_config":
+                elif base == "lang_config" and id(n) not in shadowed:
                     if k not in lang:
                         lang.append(k)
     seen = {}
@@ -548,6 +561,7 @@ def exit_codes():
 
 ITEMS = [
     ("norm_replace", norm_replace),
+    ("parsers_normalise", parsers_normalise),
     ("discovery", discovery),
     ("config_suffixes", config_suffixes),
     ("repo_ignore_sources", repo_ignore_sources),
